@@ -24,6 +24,54 @@ NOT_DECIDED = ("finiteness (NaN / infinity propagate through f64::clamp and the 
                "numeric value of the bound check; BasicFilter bounds")
 
 
+def check_servo6(rep, prog, kal):
+    from sa.stores import stores
+    n_init = 0
+    for b in kal:
+        c = None
+        for bi, t, cal in mir.iter_calls(b):
+            if cal["name"] == "ensure_freq_init":
+                c = c or cnd.conds(prog, b)
+                lits = [cnd.lit_canon(l, b) for l in c.must_literals(bi)]
+                ok = any(re.fullmatch(r"\w+\.raw_(sync|delay)_offset in \{Some\}", l) for l in lits)
+                n_init += 1
+                if ok:
+                    rep.ok("SERVO-6", b.key, "ensure_freq_init under an offset sample", detail=lits, where=fc.where(b, t["sp"][1]))
+                else:
+                    rep.violation("SERVO-6", b.key, "ensure_freq_init call",
+                                  "ensure_freq_init (programs 0 ppm and enables steering) is called under %s, not only "
+                                  "when the measurement carries a sync/delay offset: a fresh servo fed peer-delay-only "
+                                  "measurements (port no longer slave) starts commanding the clock" % (lits or "no condition"),
+                                  where=fc.where(b, t["sp"][1]))
+        # writers of cur_frequency
+        sts, pv = stores(b)
+        for s_ in sts:
+            if s_["lhs"].endswith("cur_frequency") and s_["lhs"].startswith("self"):
+                c = c or cnd.conds(prog, b)
+                val = df.canon(s_["tree"], b)
+                if val.startswith("None"):
+                    continue
+                lits = [cnd.lit_canon(l, b) for l in c.must_literals(s_["bb"])]
+                if b.name == "ensure_freq_init" or "self.cur_frequency in {Some}" in lits:
+                    rep.ok("SERVO-6", b.key, "cur_frequency <- %s" % val[:40], detail=lits, where=fc.where(b, s_["line"]))
+                else:
+                    rep.violation("SERVO-6", b.key, "cur_frequency writer",
+                                  "cur_frequency is set to `%s` in %s under %s: steering becomes enabled outside "
+                                  "ensure_freq_init" % (val[:60], b.name, lits), where=fc.where(b, s_["line"]))
+        if b.name == "change_frequency":
+            for bi, t, cal in mir.iter_calls(b):
+                if cal["name"] == "set_frequency":
+                    c = c or cnd.conds(prog, b)
+                    lits = [cnd.lit_canon(l, b) for l in c.must_literals(bi)]
+                    if "self.cur_frequency in {Some}" in lits:
+                        rep.ok("SERVO-6", b.key, "set_frequency under cur_frequency = Some", where=fc.where(b, t["sp"][1]))
+                    else:
+                        rep.violation("SERVO-6", b.key, "set_frequency gate", "change_frequency programs the clock without "
+                                      "cur_frequency being Some (%s)" % lits, where=fc.where(b, t["sp"][1]))
+    if n_init == 0:
+        rep.anchor_missing("SERVO-6", "no call of ensure_freq_init found")
+
+
 def run(ctx):
     rep = ctx.report
     prog = ctx.prog("default")
@@ -33,6 +81,9 @@ def run(ctx):
     rep.rule("SERVO-3", "step only at or above the threshold, with the negated offset; slew target clamped", floor=3)
     rep.rule("SERVO-4", "demobilize consumes the filter and issues at most one clamped frequency command", floor=3)
     rep.rule("SERVO-5", "BasicFilter clock calls enumerated", floor=3)
+    rep.rule("SERVO-6", "a Kalman servo that never received an offset sample cannot command the clock frequency: "
+                        "ensure_freq_init only under a sync/delay offset sample, set_frequency in change_frequency "
+                        "only under cur_frequency = Some, no other writer makes cur_frequency Some", floor=4)
     CLOCK = "statime::clock::Clock"
     kal = [b for b in prog.bodies.values() if b.unit.name == "statime-lib" and not b.is_test() and "filters::kalman" in b.key]
     # ---------------- SERVO-1 / SERVO-2
@@ -69,6 +120,7 @@ def run(ctx):
                         rep.violation("SERVO-1", b.key, "set_frequency argument",
                                       "the frequency programmed into the clock is `%s`: it does not pass through "
                                       "clamp_adjustment(current, _, config.max_freq_offset)" % s, where=where)
+    check_servo6(rep, prog, kal)
     allowed = {"change_frequency", "ensure_freq_init", "step"}
     for name, lst in sorted(callers.items()):
         for (b, bi, t, cal) in lst:
